@@ -28,6 +28,12 @@ add("C07", "exploration",
     "Trusts the harness's independent AES-CTR/Poly1305 + index/tree JSON parser and reference chunker. In-run duplicates (same run, index not yet reloaded) are counted but not judged, as the property states.",
     "DESIGN.md section 5 C07")
 
+add("C09", "exploration",
+    "runtime monitor: KeepOptions::apply on generated boundary-clustered snapshot sets vs. a reference implementation of the stated keep rules (own civil/ISO-week arithmetic, set formulation) + monotonicity and order-invariance metamorphic checks",
+    "Held on the generated (timestamps x options) cases: the keep flag of every snapshot equalled the reference. Sampling aimed at period boundaries (incl. ISO week-year edges); not exhaustive.",
+    "Trusts the harness reference (written from the property text) and jiff's Zoned construction for fixed offsets. DST zones, delete_unchanged and calendar-unit keep-within spans are outside the exact comparison (stated in evidence assumptions).",
+    "DESIGN.md section 5 C09")
+
 NOT_YET = "check not built yet (work in progress in this round)"
 
 def main():
